@@ -641,6 +641,17 @@ let ghost m0 = (match player_num { PlayerNum::One => single_infosets[0]@, Player
                         )
                     }
 
+// ---- extracted from src/lib.rs: impl Game / fn init_recurse ----
+pub fn init_recurse__collect_action<A, T>(action: A, next: T, actions: &mut Vec<A>, nexts: &mut Vec<T>)
+    ensures
+        // a decision node's action names and its subtrees are collected pairwise, in the order given (the
+        // infoset's action list and the node's child list have the same length and order)
+        final(actions)@ == old(actions)@.push(action) && final(nexts)@ == old(nexts)@.push(next), // @ob C11.V.init_recurse.actions_and_children_paired
+{
+                    actions.push(action);
+                    nexts.push(next);
+                }
+
 
 // vacuity canary: must be REJECTED by the verifier (an inconsistent axiom set would accept it)
 pub proof fn __canary_must_fail()
